@@ -91,6 +91,14 @@
   * refinement of the list-of-triples heap to an abstract sorted multiset of
     deadlines → `refine_pop`, `refine_idle`, `refine_push`, `refine_suspend`
 
+  * histories that BEGIN BEFORE THE MANAGER EXISTS (tasks installed at import
+    time are only listed, `TaskManager.__init__` replays the list): `Pre`,
+    `mkManager_winv`, `reachable_winv_pre` (all the clauses read off the
+    invariant hold for such histories), `premgr_time` (each listed one-shot task
+    is armed at its LAST time), `premgr_order` (the order of the LAST installs is
+    the order of the installation numbers: a pre-manager re-install moves the
+    task behind what was installed in the meantime)
+
   Partial / not proved: float arithmetic of the recurring slot (see above);
   `runLoop` is modelled with explicit fuel and its completeness theorem is
   conditional on the loop reaching `stop()` (a bound on the number of recurring
@@ -2985,6 +2993,230 @@ theorem runOnce_pass_sorted {w : World} (h : WInv w) (hp : Passive w) (fuel : Na
     have := (hq f hf).2.2
     exact ⟨this, by omega⟩
 
+/-! ## histories that begin before the manager exists
+
+  `Pre` / `Pre.step` / `Pre.mkManager`: tasks installed while `task._task_manager`
+  is `None` are only listed; `TaskManager.__init__` replays the list.  The world
+  that `mkManager` produces satisfies the invariant (`mkManager_winv`), so every
+  theorem above that is read off the invariant holds for histories with a
+  pre-manager phase too (`reachable_winv_pre`); `premgr_time` and `premgr_order`
+  say what the replay amounts to: each one-shot task is armed at its LAST time,
+  and among the listed tasks the one whose last install came later has the later
+  installation number — a pre-manager re-install moves the task behind what was
+  installed in the meantime, exactly like a re-install with a manager. -/
+
+theorem api_same (w : World) (r : TM × Option Raised) : (w.api r).tm = r.1 ∧
+    (w.api r).recurring = w.recurring := by
+  unfold World.api
+  simp only
+  split <;> exact ⟨rfl, rfl⟩
+
+/-- one replayed list entry keeps the invariant -/
+theorem replay_winv {w : World} (tid : Nat) (h : WInv w) : WInv (w.replay tid) := by
+  unfold World.replay
+  split
+  · exact api_winv _ (installRecurring_inv _ _ _ _ h.sched) h.once
+  · exact api_winv _ (installTask_inv _ _ _ _ h.sched) h.once
+
+theorem replayAll_winv {w : World} (l : List Nat) (h : WInv w) : WInv (l.foldl World.replay w) := by
+  induction l generalizing w with
+  | nil => exact h
+  | cons x r ih => exact ih (replay_winv x h)
+
+/-- what holds of a process that has no task manager yet -/
+def PreOK (p : Pre) : Prop :=
+  p.w.tm.heap = [] ∧ p.w.tm.counter = 0 ∧ p.w.tm.removed = [] ∧ (∀ t, p.w.tm.flag t = false) ∧
+  p.w.fired = [] ∧ p.w.calls = [] ∧ p.w.subs = p.w.queue.map Fn.id
+
+theorem fresh_preOK {w : World} (h : Fresh w) : PreOK { w := w } := by
+  obtain ⟨h1, h2, h3, h4, h5, h6, h7, h8⟩ := h
+  exact ⟨h1, h2, h3, h4, h5, h7, by simp [h6, h8]⟩
+
+theorem preStep_ok {p : Pre} (op : PreOp) (h : PreOK p) : PreOK (p.step op) := by
+  obtain ⟨h1, h2, h3, h4, h5, h6, h7⟩ := h
+  cases op with
+  | installAt tid t => exact ⟨h1, h2, h3, h4, h5, h6, h7⟩
+  | installAfter tid d => exact ⟨h1, h2, h3, h4, h5, h6, h7⟩
+  | installBare tid =>
+    simp only [Pre.step]
+    split <;> exact ⟨h1, h2, h3, h4, h5, h6, h7⟩
+  | installRec tid iv off =>
+    simp only [Pre.step]
+    split
+    · exact ⟨h1, h2, h3, h4, h5, h6, h7⟩
+    · split <;> exact ⟨h1, h2, h3, h4, h5, h6, h7⟩
+  | suspend tid =>
+    simp only [Pre.step]
+    split <;> exact ⟨h1, h2, h3, h4, h5, h6, h7⟩
+  | resume tid => exact ⟨h1, h2, h3, h4, h5, h6, h7⟩
+  | defer f => exact ⟨h1, h2, h3, h4, h5, h6, by simp [Pre.step, h7]⟩
+  | tick d => exact ⟨h1, h2, h3, h4, h5, h6, h7⟩
+
+/-- a pre-manager history -/
+def preRun (p : Pre) : List PreOp → Pre
+  | [] => p
+  | op :: ops => preRun (p.step op) ops
+
+theorem preRun_ok {p : Pre} (ops : List PreOp) (h : PreOK p) : PreOK (preRun p ops) := by
+  induction ops generalizing p with
+  | nil => exact h
+  | cons op r ih => exact ih (preStep_ok op h)
+
+theorem preOK_winv {p : Pre} (h : PreOK p) :
+    WInv ({ p.w with tm := { p.w.tm with trig := false } } : World) := by
+  obtain ⟨h1, h2, h3, h4, h5, h6, h7⟩ := h
+  refine ⟨?_, ?_⟩
+  · simp only; rw [h5]; exact SInv.init _ h1 h2 h3 h4
+  · unfold DPermR; simp [h6, h7]
+
+/-- the world `TaskManager.__init__` leaves behind satisfies the invariant -/
+theorem mkManager_winv {p : Pre} (h : PreOK p) : WInv p.mkManager :=
+  replayAll_winv _ (preOK_winv h)
+
+/-- the invariants — hence `fire_order`, `never_early`, `once_per_install`,
+    `install_fate`, `removed_never_fires`, `one_entry_iff_flagged`,
+    `deferred_once` — for every history that begins before the manager exists:
+    any pre-manager operations, then `TaskManager()`, then any operations -/
+theorem reachable_winv_pre {w : World} (hw : Fresh w) (pre : List PreOp) (ops : List Op) :
+    WInv ((preRun ({ w := w } : Pre) pre).mkManager.run ops) :=
+  run_winv ops (mkManager_winv (preRun_ok pre (fresh_preOK hw)))
+
+/-- the replay of a one-shot task with a time: exactly one entry for it afterwards,
+    at that time, with the newest installation number; every other task's entry
+    stays; the counter advances by one; the task attributes do not change -/
+theorem replay_oneShot {w : World} {tid t : Nat} (h : WInv w) (hr : w.recurring tid = false)
+    (ht : w.tm.ttime tid = some t) :
+    (w.replay tid).tm.heap.filter (fun e => decide (e.tid = tid)) = [⟨t, w.tm.counter, tid⟩] ∧
+    (∀ e ∈ w.tm.heap, e.tid ≠ tid → e ∈ (w.replay tid).tm.heap) ∧
+    (w.replay tid).tm.counter = w.tm.counter + 1 ∧ (w.replay tid).tm.ttime = w.tm.ttime ∧
+    (w.replay tid).recurring = w.recurring := by
+  unfold World.replay
+  simp only [hr, Bool.false_eq_true, if_false]
+  obtain ⟨htm, hrec⟩ := api_same w (w.tm.installTask w.now tid none none)
+  rw [htm, hrec]
+  unfold TM.installTask
+  simp only [ht]
+  have hupd : upd w.tm.ttime tid (some t) = w.tm.ttime := by
+    funext x; unfold upd; split
+    · rename_i hx; rw [hx, ht]
+    · rfl
+  have h0 : SInv { w.tm with ttime := upd w.tm.ttime tid (some t) } w.fired := h.sched.congr rfl rfl rfl rfl
+  obtain ⟨_, hm1, hm2, hm3, _⟩ := install_moves h0 tid t (by simp [upd])
+  refine ⟨hm1, ?_, hm3, ?_, by first | rfl | trivial⟩
+  · intro e he hne
+    have : e ∈ List.filter (fun e => decide (e.tid ≠ tid)) w.tm.heap := by simp [he, hne]
+    have := (hm2.mem_iff.mpr this)
+    exact (List.mem_filter.mp this).1
+  · rw [install_ttime]; exact hupd
+
+/-- the pre-manager lists the order theorem talks about: one-shot tasks, each
+    with a time (which is what `install_task(when=…)` leaves) -/
+def ListedOK (w : World) (l : List Nat) : Prop :=
+  ∀ x ∈ l, w.recurring x = false ∧ ∃ t, w.tm.ttime x = some t
+
+/-- replaying a list of one-shot tasks: entries of tasks not in the list stay;
+    every listed task has an entry; every entry of a listed task is new (number ≥
+    the counter before) and sits at the task's time; the counter only grows -/
+theorem replayAll_spec {w : World} (l : List Nat) (h : WInv w) (hl : ListedOK w l) :
+    w.tm.counter ≤ (l.foldl World.replay w).tm.counter ∧
+    (l.foldl World.replay w).tm.ttime = w.tm.ttime ∧
+    (l.foldl World.replay w).recurring = w.recurring ∧
+    (∀ e ∈ w.tm.heap, e.tid ∉ l → e ∈ (l.foldl World.replay w).tm.heap) ∧
+    (∀ x ∈ l, ∃ e ∈ (l.foldl World.replay w).tm.heap,
+        e.tid = x ∧ w.tm.counter ≤ e.seq ∧ w.tm.ttime x = some e.time) := by
+  induction l generalizing w with
+  | nil => exact ⟨Nat.le_refl _, rfl, rfl, fun e he _ => he, fun x hx => absurd hx (by simp)⟩
+  | cons x r ih =>
+    obtain ⟨hrx, t, htx⟩ := hl x List.mem_cons_self
+    obtain ⟨r1, r2, r4, r5, r6⟩ := replay_oneShot h hrx htx
+    have hl' : ListedOK (w.replay x) r := by
+      intro y hy; rw [r6, r5]; exact hl y (List.mem_cons_of_mem _ hy)
+    obtain ⟨i1, i2, i3, i4, i5⟩ := ih (replay_winv x h) hl'
+    simp only [List.foldl_cons]
+    refine ⟨by omega, by rw [i2, r5], by rw [i3, r6], ?_, ?_⟩
+    · intro e he hne
+      simp only [List.mem_cons, not_or] at hne
+      exact i4 e (r2 e he hne.1) hne.2
+    · intro y hy
+      by_cases hyr : y ∈ r
+      · obtain ⟨e, he, j1, j2, j3⟩ := i5 y hyr
+        rw [r5] at j3
+        exact ⟨e, he, j1, by omega, j3⟩
+      · have hyx : y = x := by
+          rcases List.mem_cons.mp hy with h1 | h1
+          · exact h1
+          · exact absurd h1 hyr
+        subst hyx
+        have hm : (⟨t, w.tm.counter, y⟩ : Entry) ∈ List.filter (fun e => decide (e.tid = y)) (w.replay y).tm.heap := by
+          rw [r1]; exact List.mem_singleton.mpr rfl
+        exact ⟨_, i4 _ (List.mem_filter.mp hm).1 hyr, rfl, Nat.le_refl _, htx⟩
+
+/-- two entries of one task in a heap that satisfies the invariant are the same entry -/
+theorem entry_unique {w : World} (h : WInv w) {a b : Entry} (ha : a ∈ w.tm.heap) (hb : b ∈ w.tm.heap)
+    (ht : a.tid = b.tid) : a = b := by
+  have hn := h.sched.tid_nodup
+  generalize w.tm.heap = l at *
+  induction l with
+  | nil => cases ha
+  | cons x r ih =>
+    simp only [List.map_cons] at hn
+    obtain ⟨hx, hr⟩ := List.nodup_cons.mp hn
+    rcases List.mem_cons.mp ha with rfl | ha' <;> rcases List.mem_cons.mp hb with rfl | hb'
+    · rfl
+    · exact absurd (List.mem_map.mpr ⟨b, hb', ht.symm⟩) hx
+    · exact absurd (List.mem_map.mpr ⟨a, ha', ht⟩) hx
+    · exact ih ha' hb' hr
+
+/-- **premgr_time** — after `TaskManager.__init__` every listed one-shot task has
+    an entry (exactly one, by the invariant), and it sits at the task's LAST time -/
+theorem premgr_time {p : Pre} (h : PreOK p) (hl : ListedOK p.w p.unsched) :
+    ∀ x ∈ p.unsched, ∃ e ∈ p.mkManager.tm.heap, e.tid = x ∧ p.w.tm.ttime x = some e.time := by
+  obtain ⟨_, _, _, _, s5⟩ := replayAll_spec p.unsched (preOK_winv h) hl
+  intro x hx
+  obtain ⟨e, he, j1, _, j3⟩ := s5 x hx
+  exact ⟨e, he, j1, j3⟩
+
+/-- **premgr_order** — the order of the LAST installs is the order of the
+    installation numbers: if the list is `l₁ ++ a :: l₂` with `a` not occurring
+    again in `l₂`, every task of `l₂` ends up with a larger number than `a` — so
+    among equal times `a` fires first (`fire_order`): a re-install before the
+    manager exists moves the task behind everything installed in the meantime -/
+theorem premgr_order {p : Pre} (h : PreOK p) (l₁ l₂ : List Nat) (a : Nat)
+    (hu : p.unsched = l₁ ++ a :: l₂) (ha : a ∉ l₂) (hl : ListedOK p.w p.unsched) :
+    ∀ ea ∈ p.mkManager.tm.heap, ∀ eb ∈ p.mkManager.tm.heap,
+      ea.tid = a → eb.tid ∈ l₂ → ea.seq < eb.seq := by
+  have hw0 := preOK_winv h
+  have hfin : WInv p.mkManager := mkManager_winv h
+  unfold Pre.mkManager at hfin ⊢
+  rw [hu] at hl hfin ⊢
+  rw [List.foldl_append, List.foldl_cons] at hfin ⊢
+  have hl1 : ListedOK ({ p.w with tm := { p.w.tm with trig := false } } : World) l₁ :=
+    fun x hx => hl x (List.mem_append_left _ hx)
+  obtain ⟨_, t1, c1, _, _⟩ := replayAll_spec l₁ hw0 hl1
+  have hw1 := replayAll_winv l₁ hw0
+  generalize l₁.foldl World.replay ({ p.w with tm := { p.w.tm with trig := false } } : World) = v1 at *
+  obtain ⟨hra, ta, hta⟩ := hl a (List.mem_append_right _ List.mem_cons_self)
+  have hra1 : v1.recurring a = false := by rw [c1]; exact hra
+  have hta1 : v1.tm.ttime a = some ta := by rw [t1]; exact hta
+  obtain ⟨r1, _, r4, r5, r6⟩ := replay_oneShot hw1 hra1 hta1
+  have hw2 := replay_winv a hw1
+  have hl2 : ListedOK (v1.replay a) l₂ := by
+    intro y hy; rw [r6, r5, c1, t1]
+    exact hl y (List.mem_append_right _ (List.mem_cons_of_mem _ hy))
+  obtain ⟨_, _, _, s4, s5⟩ := replayAll_spec l₂ hw2 hl2
+  intro ea hea eb heb htid hb
+  -- a's entry: the one its last replay made, untouched since
+  have hm : (⟨ta, v1.tm.counter, a⟩ : Entry) ∈ List.filter (fun e => decide (e.tid = a)) (v1.replay a).tm.heap := by
+    rw [r1]; exact List.mem_singleton.mpr rfl
+  have hsurv := s4 _ (List.mem_filter.mp hm).1 ha
+  have hea' : ea = ⟨ta, v1.tm.counter, a⟩ := entry_unique hfin hea hsurv htid
+  -- b's entry: made by a replay after that
+  obtain ⟨e, he, j1, j2, _⟩ := s5 eb.tid hb
+  have heb' : eb = e := entry_unique hfin heb he j1.symm
+  rw [hea', heb']
+  simp only
+  omega
+
 end Parametric
 
 /-! ## the nested pass of the real model satisfies `PumpOK` -/
@@ -3118,6 +3350,27 @@ example : (({} : World).run pumpOps).calls = [1, 2, 11, 21, 3, 12, 13] ∧
     (({} : World).run pumpOps).subs = [1, 2, 3, 11, 21, 12, 13] ∧
     (({} : World).run pumpOps).queue.length = 0 ∧ (({} : World).run pumpOps).failed = [2] := by
   decide +kernel
+
+/-- BEFORE the manager exists: install task 0 at 500000, task 1 at 500000,
+    re-install task 0 at 500000; then `TaskManager()` and a pass.  The replay
+    lists [0, 1, 0]: task 0 is armed, task 1 is armed, task 0 is moved behind
+    task 1 — task 1 fires first (`premgr_order`).  A suspend of the never
+    installed task 2 is refused (ValueError), `install_task(delta=…)` too. -/
+def preOps : List PreOp :=
+  [.installAt 0 500000, .installAt 1 500000, .suspend 2, .installAfter 2 5, .installAt 0 500000]
+
+example : (preRun {} preOps).unsched = [0, 1, 0] ∧
+    (((preRun {} preOps).mkManager.step (.advOnce 500000 10)).1.fired.map (fun f => (f.tid, f.seq))) = [(1, 1), (0, 2)] ∧
+    (preRun {} preOps).w.out.length = 2 ∧
+    ListedOK (preRun {} preOps).w (preRun {} preOps).unsched := by
+  refine ⟨by decide +kernel, by decide +kernel, by decide +kernel, ?_⟩
+  intro x hx
+  have : x = 0 ∨ x = 1 := by
+    have h : (preRun {} preOps).unsched = [0, 1, 0] := by decide +kernel
+    rw [h] at hx; simp at hx; omega
+  rcases this with rfl | rfl
+  · exact ⟨rfl, 500000, by decide +kernel⟩
+  · exact ⟨rfl, 500000, by decide +kernel⟩
 
 /-- `recurring_grid` with 1/3 s in ticks of 1/3 µs (interval 10⁶, jitter 3, offset 10⁵),
     installed at 123456 µs: firings number 0, 1, 2 -/
